@@ -4,7 +4,7 @@ import vlib, gen, impl
 from props.c01 import VERSIONS, excluded
 
 MODULES = ['Hl7.Props.C14'] + ['Hl7.Gen.ObV' + v.replace('.', '_') for v in VERSIONS]
-THEOREMS = ['Hl7.Pe.C14_case_segment', 'Hl7.Pe.C14_case_field', 'Hl7.Pe.C14_segment_negative', 'Hl7.Pe.C14_segment_resolves_to_declared',
+THEOREMS = ['Hl7.Pe.C14_positional_component', 'Hl7.Pe.C14_case_segment', 'Hl7.Pe.C14_case_field', 'Hl7.Pe.C14_segment_negative', 'Hl7.Pe.C14_segment_resolves_to_declared',
             'Hl7.Pe.C14_field_negative'] + \
            ['Hl7.Gen.ObV%s.segWF' % v.replace('.', '_') for v in VERSIONS] + ['Hl7.Gen.ObV%s.addressable' % v.replace('.', '_') for v in VERSIONS]
 SAFE = {'DT': '2020', 'TM': '12', 'DTM': '2020', 'NM': '10', 'SI': '1', 'TN': '5551234'}
